@@ -11,6 +11,7 @@ symbolic=False: concrete replay against the unmodified code: no shims,
 class _Mode:
     symbolic = True
     decimal_places = 5
+    history_pre = False   # symbolic runs build the pre-state through public calls (a true history)
 
 
 MODE = _Mode()
